@@ -147,6 +147,9 @@ func basicVerdict(e *vrt.Exec) (rule, msg string) {
 	if e.Reason() == vrt.EndTruncated {
 		return "", ""
 	}
+	if e.Reason() == vrt.EndStepCap {
+		return "livelock", fmt.Sprintf("the execution did not end within %d steps (virtual time %s): corebgp is busy-looping", e.Steps(), time.Duration(e.Now()))
+	}
 	if !e.MainDone() {
 		var sb strings.Builder
 		for _, g := range e.Goroutines() {
